@@ -143,6 +143,10 @@ func (fs *MemFs) ReadAt(f File, offset uint64, length uint64) []byte {
 	// copy:
 	// (1) makes the returned data independent
 	// (2) automatically truncates to the smaller buffer
+	if length > uint64(len(data))-offset {
+		// never allocate more than there is to return
+		length = uint64(len(data)) - offset
+	}
 	p := make([]byte, length)
 	n := copy(p, data[offset:])
 	return p[:n]
